@@ -73,7 +73,10 @@ def gen_ops(ctx: Ctx, P, M):
                     # every head is handed the same list of head parameters (some of which its loss does not depend on)
                     shared_set = set(P.reach_leaves(M.features))
                     allp = sorted({p for tl in M.task_leaves for p in tl if p not in shared_set})
-                    tasks = [list(allp) for _ in M.task_leaves]
+                    if T * len(allp) <= 20:
+                        # (the model's heap semantics costs exponentially in tasks x listed parameters: 4 x 5 takes 0.2 s, 4 x 8
+                        # did not finish in an hour — larger products keep their own lists)
+                        tasks = [list(allp) for _ in M.task_leaves]
                 agg = rng.choice([("const", rng.sample(range(-5, 8), T)), ("sum",),
                                   ("probe", [rng.choice([-1, 1, 2]) for _ in range(T)])][:2 if (P.big or P.casts) else 3])
                 op = ("mtl", M.losses, M.features, tasks, shared, agg, rng.choice([None, 1, 2]))
